@@ -389,7 +389,44 @@ def check_buffers(ctx):
             ctx.check(bool(same), inst, "PROVENANCE", b.path, "pwrite's pointer and byte count come from the same buffer", b.where(p), {"count": cnt.show(), "buf": buf.show()})
 
 
+def check_uring_lengths(ctx):
+    """an io_uring write hands the kernel a raw (pointer, length) pair that the SQPOLL thread dereferences on its own: the
+    length must be the retained buffer's own length. (1) PendingWriteBuffer::as_ptr / len are pure projections of the variant's
+    buffer (no arithmetic: a rounded-up length makes the kernel read past a Bytes allocation); (2) opcode::Write::new takes
+    pointer and length from the same retained buffer, the length only narrowed by a cast."""
+    inst = "C20.uring-len"
+    for fn, want in (("PendingWriteBuffer::len", ("AlignedBuffer::len", "Bytes::len")), ("PendingWriteBuffer::as_ptr", ("AlignedBuffer::as_ptr", "Bytes::as_ptr", "slice::as_ptr", "Deref::deref"))):
+        b = ctx.fn(fn, inst)
+        if b is None:
+            continue
+        rets = [n.id for n in b.nodes if n.kind in ("assign", "call") and (n.ev.get("dst") or n.ev.get("dest") or {}).get("l") == 0 and not (n.ev.get("dst") or n.ev.get("dest") or {}).get("p")]
+        ctx.check(len(rets) >= 2, inst, "anchor", b.path, "one return value per variant (>= 2, found %d)" % len(rets), None)
+        tr = A.tracer(b, False)
+        for r in rets:
+            v = tr.node_value(r)
+            pure = not any(x.k in ("bin", "un") for x in v.walk()) and any(x.k == "call" and any(path_matches(x.extra, w) for w in want) for x in v.walk()) and \
+                all(x.k != "call" or any(path_matches(x.extra, w) for w in want) for x in v.walk())
+            ctx.check(pure, inst, "PIN", b.path, "%s is a pure projection of the variant's buffer (no arithmetic)" % fn.rsplit("::", 1)[-1], b.where(r), {"expr": v.show()})
+    n_w = 0
+    for b in ctx.prog.product_bodies():
+        for n in b.calls():
+            if not (call_matches(n.ev, "opcode::Write::new") or call_matches(n.ev, "opcode::Read::new")):
+                continue
+            n_w += 1
+            ptr = R.arg_expr(b, n, 1, transparent=False)
+            ln = R.arg_expr(b, n, 2, transparent=False)
+            pc = [c for c in ptr.walk() if c.k == "call" and path_matches(c.extra, "PendingWriteBuffer::as_ptr")]
+            lc = [c for c in ln.walk() if c.k == "call" and path_matches(c.extra, "PendingWriteBuffer::len")]
+            same = len(pc) == 1 and len(lc) == 1 and pc[0].a and lc[0].a and pc[0].a[0].key() == lc[0].a[0].key()
+            ctx.check(bool(same), inst, "PROVENANCE", b.path, "the submitted pointer and length are as_ptr() / len() of the same retained buffer", b.where(n.id),
+                      {"ptr": ptr.show()[:120], "len": ln.show()[:120]})
+            ctx.check(not any(x.k in ("bin", "un") for x in ln.walk() if not (lc and x.nid is not None and any(y is x for y in lc[0].walk()))) if lc else False, inst, "PIN", b.path,
+                      "the submitted length is the buffer length itself (cast only)", b.where(n.id), {"len": ln.show()[:120]})
+    ctx.check(n_w >= 1, inst, "anchor", "-", "io_uring read/write submissions found (>= 1, found %d)" % n_w, None)
+
+
 def check(ctx):
+    check_uring_lengths(ctx)
     check_inventory(ctx)
     check_epoch(ctx)
     check_inflight(ctx)
